@@ -415,8 +415,10 @@ def _analyse(plan: Dict[str, Any], spec: Dict[str, Any], original: Any, inputs: 
                 raise Violation("metrics", "annotation_on_non_float_value", f"{name} {where}")
             for label, s_txt, ref in (("forward", f_s, cap.fwd[name]), ("backward", b_s, cap.bwd.get(name))):
                 if s_txt == "n/a":
-                    if ref is not None and label == "backward":
-                        raise Violation("metrics", "analyse_backward_missing", f"{name}: printed n/a but a gradient reached it {where}")
+                    if label == "forward":
+                        raise Violation("metrics", "analyse_forward_missing", f"{name}: forward scale printed as n/a for an observed float tensor (true std {ref['std_unbiased']!r}) {where}")
+                    if ref is not None:
+                        raise Violation("metrics", "analyse_backward_missing", f"{name}: printed n/a but a gradient reached it (true std {ref['std_unbiased']!r}) {where}")
                     continue
                 if ref is None:
                     raise Violation("metrics", "analyse_backward_spurious", f"{name}: printed {s_txt} but no gradient reached it {where}")
